@@ -431,6 +431,22 @@ def lookups(ck):
                                  found=r[:200], required="moleculeId == self.queryId")
                 else:
                     raise AnalysisError(f"{w}: how the original query is found is not recognised: {T.show(e.term)[:160]}")
+    if judged == 0:
+        # a binary search over the query list presumes an order nothing guarantees (the list is what the reader - or any caller of
+        # the library - hands over, in file order)
+        from ..rules.common import path_terms as _pt
+        for pa in explore(ck, fn, unroll=(0, 1)):
+            for t, facts, node, kind in _pt(pa):
+                hits = [x for x in T.subterms(t) if x[0] == "call" and x[1].split(".")[-1] in ("bisect_left", "bisect_right", "bisect", "searchsorted")
+                        and x[2] and T.contains(x[2][0], queries)]
+                if hits and id(node) not in seen:
+                    seen.add(id(node))
+                    judged += 1
+                    ck.violation("C10.2", short(fn) + ":original-query", where(fn, node),
+                                 "the original query is found by binary search over the query list: that presumes the list is sorted by "
+                                 "molecule id, which depends on the order of the molecules in the file - for another order the fragments "
+                                 "of another molecule (or none) are re-aligned", found=T.show(hits[0])[:160],
+                                 required="selection by moleculeId == self.queryId")
     ck.floor("C10.2 original-query lookups in getUnalignedFragments", judged, 1)
     # the caller hands over the whole query list: a list pre-selected by the row's *position* (zip of rows and queries, an
     # index) pairs rows with the wrong molecule as soon as one query has no first-pass row
